@@ -151,6 +151,52 @@ def gen_many_calls_buffer(rng, mods):
     return b.text, list(b.probes)
 
 
+def gen_dynamic_params_buffer(rng, mods):
+    """parameter types inferred from call sites (dynamic params): a self-recursive
+    function, functions with many call sites whose distinguishing argument comes late,
+    mutually recursive functions - budgets/depth counters of that search must not leak
+    from one query into the next"""
+    b = world.Buffer()
+    tops = [m for m in mods if '.' not in m]
+    a = rng.choice(tops)
+    b.add('import %s' % a)
+    b.add('')
+    b.add('def rec(ra):')
+    b.add('    ra.x', [('infer', '    ra', None), ('complete', 'ra.', None)])
+    b.add('    return rec(ra)')
+    b.add('')
+    b.add('rec(1.5)')
+    b.add('')
+    n0 = len(b.probes)
+    b.add('def ping(pa):')
+    b.add('    pa.x', [('infer', '    pa', None)])
+    b.add('    return pong(pa)')
+    b.add('')
+    b.add('def pong(pb):')
+    b.add('    pb.x', [('complete', 'pb.', None)])
+    b.add('    return ping(pb)')
+    b.add('')
+    b.add('ping("s")')
+    for p in b.probes[n0:]:
+        p['tag'] = 'mutrec'     # parameter of a function inside a call cycle (listed finding)
+    b.add('')
+    b.add('def many(mb):')
+    b.add('    mb.x', [('infer', '    mb', None), ('complete', 'mb.', None)])
+    b.add('    return mb')
+    b.add('')
+    n = rng.randint(11, 16)
+    late = rng.randint(10, n - 1)
+    for j in range(n):
+        b.add('many(%s)' % ('%s.Klass()' % a if j == late else rng.choice(['1', '2', '3'])))
+    b.add('')
+    b.add('def few(fb):')
+    b.add('    fb.x', [('infer', '    fb', None)])
+    b.add('    return fb')
+    b.add('few(%s.func(1))' % a)
+    b.add('few(b"x")')
+    return b.text, list(b.probes)
+
+
 def gen_case(seed, tier, i):
     rng = driver.rng_for(seed, 'C16', tier, 'case', i)
     w = world.gen_world(rng, n_top=rng.randint(2, 3), with_pkg=rng.random() < 0.3, with_ns=False)
@@ -159,6 +205,8 @@ def gen_case(seed, tier, i):
     family = rng.random()
     if family < 0.2:
         text, probes = gen_many_calls_buffer(rng, list(w.mods))
+    elif family < 0.35:
+        text, probes = gen_dynamic_params_buffer(rng, list(w.mods))
     elif family < 0.8:
         text, probes = gen_multi_buffer(rng, list(w.mods))
     else:
@@ -182,8 +230,8 @@ def gen_case(seed, tier, i):
     rng.shuffle(idxs)
     chosen = idxs[:min(8, len(idxs))]
     sched = []
-    if family < 0.2:
-        sched = list(chosen)        # every call site once, then repetitions
+    if family < 0.35:
+        sched = list(chosen)        # every probe once (in shuffled order), then repetitions
     for _ in range(rng.randint(8, 16 if tier == 'quick' else 24)):
         sched.append(rng.choice(chosen))
     nf = rng.randint(1, 3)
@@ -311,6 +359,8 @@ class C16(base.Engine):
                 if what == 'content' and _builtin_representative_differs(probes[idx], res, b):
                     what = 'representative_of_builtin_instance'
                 sig = '%s:%s:%s' % (kind, probes[idx]['m'], what)
+                if probes[idx].get('tag'):
+                    sig += '@' + probes[idx]['tag']
                 d = {'probe': probes[idx], 'op': j, 'cfg': cfg, 'got': _short(res), 'base': _short(b)}
                 if extra:
                     d.update(extra)
@@ -378,7 +428,7 @@ class C16(base.Engine):
         stats['digest'] = driver.events_digest([{'d': digests}])
         stats['distinct_process_outputs'] = len(set(digests))
         if problems:
-            problems.sort(key=lambda p: p[0].endswith('representative_of_builtin_instance'))
+            problems.sort(key=lambda p: p[0].endswith('representative_of_builtin_instance') or p[0].endswith('@mutrec'))
             return {'verdict': 'violation', 'sig': problems[0][0],
                     'detail': {'problems': [[s, d] for s, d in problems[:4]], 'n': len(problems),
                                'all_sigs': sorted({s for s, _ in problems})}, 'stats': stats}
@@ -420,18 +470,20 @@ class C16(base.Engine):
         return c, r
 
     def known_match(self, case, result, known):
-        sig = result.get('sig') or ''
+        import re
         probs = (result.get('detail') or {}).get('problems') or []
-        for k in known['findings']:
-            if k.get('property') != 'C16':
-                continue
-            pref = k.get('match', {}).get('sig_regex')
-            if pref:
-                import re
-                sigs = (result.get('detail') or {}).get('all_sigs') or [p[0] for p in probs]
-                if sigs and all(re.fullmatch(pref, x) for x in sigs):
-                    return k
-        return None
+        sigs = (result.get('detail') or {}).get('all_sigs') or [p[0] for p in probs]
+        ks = [k for k in known['findings'] if k.get('property') == 'C16' and k.get('match', {}).get('sig_regex')]
+        if not sigs or not ks:
+            return None
+        hit = None
+        for x in sigs:
+            m = [k for k in ks if re.fullmatch(k['match']['sig_regex'], x)]
+            if not m:
+                return None
+            if hit is None or result.get('sig') == x:
+                hit = m[0]
+        return hit
 
     def coverage(self, pairs, tier):
         ev = runs = 0
